@@ -384,8 +384,7 @@ pub fn byz_rewrite_poplar(bits: usize, ctx: &[u8], nonce: &[u8; 16], meas: &[N],
     let seeds_off = ctrl;
     let inner_off = ctrl + 16 * bits;
     let leaf_off = inner_off + 16 * (bits - 1);
-    let mut corr_levels_touched: Vec<usize> = Vec::new(); // level index; bits-1 = leaf
-    let mut corr_seed_touched = false;
+    let honest_inputs: Vec<Vec<u8>> = inputs.clone();
     let mut notes: Vec<String> = Vec::new();
     for e in edits {
         match e {
@@ -421,7 +420,6 @@ pub fn byz_rewrite_poplar(bits: usize, ctx: &[u8], nonce: &[u8; 16], meas: &[N],
                     let off = 48 + 16 * l + 8 * w;
                     let _ = fe_add::<Field64>(&mut inputs[a][off..off + 8], Field64::from(d), false);
                 }
-                corr_levels_touched.push(l);
                 notes.push(format!("{} share of aggregator {a} at level {l} altered", if w == 0 { "A" } else { "B" }));
             }
             ByzEdit::KeyBytes { agg, which, m } => {
@@ -432,9 +430,6 @@ pub fn byz_rewrite_poplar(bits: usize, ctx: &[u8], nonce: &[u8; 16], meas: &[N],
                 raw_edit(&mut region, m, true);
                 if region.len() == hi - lo && region != before {
                     inputs[a][lo..hi].copy_from_slice(&region);
-                    if *which % 2 == 1 {
-                        corr_seed_touched = true;
-                    }
                     notes.push(format!("{} of aggregator {a} altered", if *which % 2 == 0 { "IDPF key" } else { "correlated-randomness seed" }));
                 }
             }
@@ -466,7 +461,11 @@ pub fn byz_rewrite_poplar(bits: usize, ctx: &[u8], nonce: &[u8; 16], meas: &[N],
                 }
             }
         }
-        let corr_bad = corr_seed_touched || corr_levels_touched.contains(&level);
+        // what actually differs from the honest report in the end (edits may cancel each other)
+        let corr_seed_touched = (0..2).any(|a| inputs[a][16..48] != honest_inputs[a][16..48]);
+        let (lo, hi) = if level == bits - 1 { (48 + 16 * (bits - 1), 48 + 16 * (bits - 1) + 64) } else { (48 + 16 * level, 48 + 16 * level + 16) };
+        let corr_level_touched = (0..2).any(|a| inputs[a][lo..hi] != honest_inputs[a][lo..hi]);
+        let corr_bad = corr_seed_touched || corr_level_touched;
         let must_reject = undecodable || bad || ones > 1 || corr_bad;
         labels.push(ByzLabel { ap: ai as u32, must_reject, desc: format!("{}; over the {} candidates of length {plen}: {} one-entries, invalid entry: {bad}, correlated randomness of this level altered: {corr_bad}", notes.join("; "), ap.len(), ones) });
     }
